@@ -261,10 +261,41 @@ func v6Protected(input []byte) ([]byte, bool) {
 	return v6B64Any(parts[0])
 }
 
+// RFC 7515 framing, checked on the bytes with the harness's own code: JSON serialization (starts with '{' after white space)
+// or exactly three segments over the base64url alphabet, none of length 1 mod 4, no non-zero trailing bits
+func v6StrictFraming(input []byte) bool {
+	t := bytes.TrimLeft(input, " \t\r\n\v\f")
+	if len(t) > 0 && t[0] == '{' {
+		return true
+	}
+	segs := strings.Split(string(input), ".")
+	if len(segs) != 3 {
+		return false
+	}
+	const alphabet = "ABCDEFGHIJKLMNOPQRSTUVWXYZabcdefghijklmnopqrstuvwxyz0123456789-_"
+	for _, sg := range segs {
+		if len(sg)%4 == 1 {
+			return false
+		}
+		for _, ch := range sg {
+			if !strings.ContainsRune(alphabet, ch) {
+				return false
+			}
+		}
+		if len(sg) > 0 {
+			last := strings.IndexByte(alphabet, sg[len(sg)-1])
+			if (len(sg)%4 == 2 && last&0xF != 0) || (len(sg)%4 == 3 && last&0x3 != 0) {
+				return false
+			}
+		}
+	}
+	return true
+}
+
 // the model's view of an input: framing verdict by jwx (contract), members decoded generically
 func v6Describe(input []byte) map[string]any {
 	ref := sha256.Sum256(input)
-	d := map[string]any{"ref": hex.EncodeToString(ref[:])}
+	d := map[string]any{"ref": hex.EncodeToString(ref[:]), "strict": v6StrictFraming(input)}
 	msg, err := jws.Parse(input)
 	if err != nil {
 		d["framing"] = "bad"
@@ -1298,11 +1329,11 @@ func (g *v6Gen) build(sp v6Spec) ([]byte, v6Call) {
 	c := v6CallOf(input)
 	// verdicts: ECDSA verification done here with crypto/ecdsa (independent of jws.Verify), cross-checked with what was signed
 	c.SigJwk, c.SigKeys = v6Verdicts(input, g.keys)
-	if !sp.twoSigs && !sp.extraSeg && sp.framing == 0 {
+	if !sp.twoSigs && !sp.extraSeg && sp.framing == 0 && c.Jws["framing"] != "bad" {
 		algOK := sp.alg == "" || sp.alg == "ES256"
 		valid := !sp.tamper && algOK
 		if c.SigJwk != (valid && sp.embed == sp.signer) || (len(c.SigKeys) > 0) != valid {
-			panic("verif: verdict by verification and verdict by construction disagree")
+			panic(fmt.Sprintf("verif: verdict by verification (%v %v) and verdict by construction (valid=%v embed=%d signer=%d) disagree: %+v", c.SigJwk, c.SigKeys, valid, sp.embed, sp.signer, sp))
 		}
 	}
 	if sp.embed < 0 {
@@ -1373,11 +1404,13 @@ func (g *v6Gen) history(steps int, schedules bool) {
 		didName := ""
 		if len(prevs) > 0 && len(dids) > 0 && g.rnd.Intn(3) == 0 {
 			// sign with a key a DID document holds as of one of the prevs: make that so by registering the doc for the first prev
-			for d, k := range dids {
-				didName = d
-				sp.signer = k
-				break
+			var names []string
+			for d := range dids {
+				names = append(names, d)
 			}
+			sort.Strings(names)
+			didName = names[g.rnd.Intn(len(names))]
+			sp.signer = dids[didName]
 			sp.embed = -1
 			sp.kid = didName + "#k" + strconv.Itoa(sp.signer)
 		}
@@ -1600,7 +1633,9 @@ func (g *v6Gen) history(steps int, schedules bool) {
 					sp.alg = "ES384"
 					note += ":alg-es384"
 				case 13:
-					sp.lc = sp.lc + ".5"
+					if !strings.Contains(sp.lc, ".") {
+						sp.lc = sp.lc + ".5"
+					}
 					note += ":lc-fraction"
 				case 14:
 					sp.lc = strconv.FormatInt(int64(lc)+4294967296, 10)
@@ -1880,6 +1915,18 @@ func TestVerifC06(t *testing.T) {
 			var op v6Op
 			if err := json.Unmarshal([]byte(l), &op); err != nil {
 				t.Fatalf("bad op line: %v", err)
+			}
+			// the description is a function of the bytes: recompute it, so that stored witnesses stay valid when it gains fields
+			redescribe := func(c *v6Call) {
+				if in, err := base64.StdEncoding.DecodeString(c.In); err == nil {
+					c.Jws = v6Describe(in)
+				}
+			}
+			if op.Call != nil {
+				redescribe(op.Call)
+			}
+			for i := range op.Calls {
+				redescribe(&op.Calls[i])
 			}
 			ops = append(ops, op)
 		}
